@@ -184,6 +184,8 @@ class Contract:
         exc_ensures: dict[str, list[str]] | None = None,
         lemmas: list[str] | None = None,
         witness: Any = None, note: str = '',
+        locals: dict[str, str] | None = None,
+        env: dict[str, Any] | None = None,
     ) -> None:
         self.func = func
         self.params = params or {}
@@ -198,6 +200,8 @@ class Contract:
         self.exc_ensures = exc_ensures or {}
         self.lemmas = lemmas or []
         self.witness = witness
+        self.locals = locals or {}
+        self.env = env or {}
         self.note = note
 
 
@@ -370,8 +374,14 @@ class State:
 
     def __init__(self, ex: 'Executor') -> None:
         self.ex = ex
+        # stage 1: E-matching only (fast proofs, fast give-up);
+        # stage 2: default configuration with MBQI (counter-models)
         self.solver = z3.Solver()
         self.solver.set('timeout', ex.timeout_ms)
+        self.solver.set('auto_config', False)
+        self.solver.set('mbqi', False)
+        self.solver2 = z3.Solver()
+        self.solver2.set('timeout', ex.timeout_ms)
         # quantifier-free facts only: used for path feasibility (an
         # over-approximation of feasibility is sound for pruning)
         self.qf = z3.Solver()
@@ -385,6 +395,7 @@ class State:
     def assume(self, c: Any) -> None:
         self.facts.append(c)
         self.solver.add(c)
+        self.solver2.add(c)
         if not has_quantifier(c):
             self.qf.add(c)
 
@@ -445,11 +456,11 @@ class Executor:
     def _mk_eff(self) -> None:
         d = z3.Datatype('Eff')
         d.declare(
-            'mk', ('kind', z3.IntSort()), ('a', self.S.Pay),
-            ('b', self.S.Pay), ('c', self.S.Pay),
+            'mk', ('kind', z3.IntSort()), ('a', self.S.AnyS),
+            ('b', self.S.AnyS), ('c', self.S.AnyS),
         )
         self.Eff = d.create()
-        self.pay_none = z3.Const('pay_none', self.S.Pay)
+        self.pay_none = z3.Const('pay_none', self.S.AnyS)
 
     def eff_kind(self, k: str) -> int:
         if k not in self.eff_kinds:
@@ -457,20 +468,10 @@ class Executor:
         return self.eff_kinds[k]
 
     def to_pay(self, st: State, v: Any) -> Any:
+        """Effect components are stored as Any (canonical injection)."""
         if v is None:
             return self.pay_none
-        v = self.as_v(st, v)
-        inj, proj, tag = self.S.inj(v.ty)
-        t = inj(v.t)
-        st.assume(proj(t) == v.t)
-        st.assume(self.pay_tag(t) == tag)
-        return t
-
-    @property
-    def pay_tag(self) -> Any:
-        if not hasattr(self, '_pay_tag'):
-            self._pay_tag = z3.Function('pay_tag', self.S.Pay, z3.IntSort())
-        return self._pay_tag
+        return self.coerce(st, self.as_v(st, v), TAny).t
 
     def log_effect(self, st: State, kind: str, a: Any = None, b: Any = None,
                    c: Any = None) -> None:
@@ -518,16 +519,10 @@ class Executor:
         if v.ty == ty:
             return v
         if ty is TAny:
-            inj = z3.Function(
-                'any_of_' + str(self.S.inj(v.ty)[2]), self.S.sort(v.ty),
-                self.S.AnyS,
-            )
-            inv = z3.Function(
-                'any_to_' + str(self.S.inj(v.ty)[2]), self.S.AnyS,
-                self.S.sort(v.ty),
-            )
+            inj, inv = self.any_fns(st, v.ty)
             t = inj(v.t)
-            st.assume(inv(t) == v.t)
+            if not getattr(self, 'quiet', False):
+                st.assume(inv(t) == v.t)
             return V(t, TAny)
         if isinstance(ty, TOpt):
             s = self.S.sort(ty)
@@ -551,16 +546,31 @@ class Executor:
         if ty is TInt and v.ty is TBool:
             return V(z3.If(v.t, 1, 0), TInt)
         if v.ty is TAny:
-            inv = z3.Function(
-                'any_to_' + str(self.S.inj(ty)[2]), self.S.AnyS,
-                self.S.sort(ty),
-            )
+            inj, inv = self.any_fns(st, ty)
             return V(inv(v.t), ty)
         if isinstance(ty, TList) and isinstance(v.ty, TList) \
                 and isinstance(v.ty.elem, TTuple) \
                 and isinstance(ty.elem, TTuple):
             raise Unsupported('list element conversion %s -> %s' % (v.ty, ty))
         raise Unsupported('cannot coerce %s to %s' % (v.ty, ty))
+
+    def any_fns(self, st: State, ty: T) -> tuple[Any, Any]:
+        """Injection of sort(ty) into Any and its left inverse; the
+        inverse law is a quantified axiom of the path."""
+        k = ty.key
+        if not hasattr(st, 'any_axioms'):
+            st.any_axioms = set()
+        srt = self.S.sort(ty)
+        tag = self.S.inj(ty)[2]
+        inj = z3.Function('any_of_%d' % tag, srt, self.S.AnyS)
+        inv = z3.Function('any_to_%d' % tag, self.S.AnyS, srt)
+        if k not in st.any_axioms:
+            st.any_axioms.add(k)
+            x = z3.Const('anyx_%d' % tag, srt)
+            st.assume(z3.ForAll(
+                [x], inv(inj(x)) == x, patterns=[inj(x)],
+            ))
+        return inj, inv
 
     def truth(self, st: State, x: Any) -> Any:
         v = self.as_v(st, x)
@@ -618,6 +628,8 @@ class Executor:
 
     def known(self, st: State, v: V) -> None:
         """Typing facts for a value read from the heap or a container."""
+        if getattr(self, 'quiet', False):
+            return      # inside a spec: terms may mention bound variables
         ty = v.ty
         if isinstance(ty, TRef):
             st.assume(z3.And(v.t >= 0, v.t < st.alloc))
